@@ -34,7 +34,7 @@ def report(rep, signature, what, replay):
         rep.violation(signature, what, replay)
 
 
-GENERATED = ["VteTable", "AnsiSgr", "LinkSites"]
+GENERATED = ["VteTable", "AnsiSgr", "LinkSites", "LinkTargets", "RawLine"]
 ESC = "\x1b"
 
 # ------------------------------------------------------------------ independent OSC 8 scanner
@@ -385,6 +385,16 @@ def gen_input(rng):
                 lines.append(f"@@ -{start},{nm} +{start + 2},{npl} @@" + rng.choice(["", " fn main() {"]))
                 lines += body
                 start += nm + rng.randint(3, 40)
+    elif kind < 0.88:
+        # classic grep output (`path:line:code`, `path-line-context`); needs a grep caller (binary_case pins it)
+        for _ in range(rng.randint(1, 3)):
+            name = rng.choice(["sub/a.rs", "b.txt", "dir/c.py", "other/z.rs", "sub/deep/x.md"])
+            if name not in files:
+                files.append(name)
+            ln = rng.randint(1, 900)
+            lines.append(f"{name}:{ln}:{rng.choice(['let x = foo;', '  foo(bar)', 'foo'])}")
+            if rng.random() < 0.5:
+                lines.append(f"{name}-{ln + 1}-context line")
     else:
         import json
         for _ in range(rng.randint(1, 2)):
@@ -418,6 +428,11 @@ def binary_case(ctx, rep, case):
     largs = ["--hyperlinks", "--hyperlinks-file-link-format", fmt]
     if cfmt:
         largs += ["--hyperlinks-commit-link-format", cfmt]
+    xform = case.get("xform")
+    if xform:
+        mode = mode + ["--file-transformation", xform]
+    if case.get("caller"):
+        env["DELTA_VERIF_FORCE_GUESS"] = case["caller"]
     rc1, o1, e1 = ctx.run_delta(["--no-gitconfig"] + mode, data, env=env, cwd=root)
     rc2, o2, e2 = ctx.run_delta(["--no-gitconfig"] + mode + largs, data, env=env, cwd=root)
     nlinks = o2.count(b"\x1b]8;;")
@@ -472,7 +487,8 @@ def binary_case(ctx, rep, case):
                 return
             # which file: a link whose text names a file must point at that file; a bare number
             # (gutter) at the file of the current section
-            named = [f for f in files if os.path.basename(f) in t]
+            # the names a file can be displayed under: its own, relativized, and rewritten by --file-transformation
+            named = [f for f in files if any(b and b in t for b in shown_names(f, xform, prefix))]
             if named:
                 current = os.path.normpath(os.path.join(root, max(named, key=len)))
                 if path != current and not any(path == os.path.normpath(os.path.join(root, f)) for f in named):
@@ -485,7 +501,12 @@ def binary_case(ctx, rep, case):
                               dict(kind="binary", row=i, url=u, text=t, want=current, **case))
                 return
             if line is not None:
-                nums = re.findall(r"\d+", t.replace(os.path.basename(path), ""))
+                tt = t
+                for f in files:
+                    for b in sorted(shown_names(f, xform, prefix), key=len, reverse=True):
+                        if b:
+                            tt = tt.replace(b, "")
+                nums = re.findall(r"\d+", tt)
                 shown = nums[-1] if nums else ""
                 if line != shown and not (line == "" and not nums):
                     if not nums and line != "0":
@@ -493,6 +514,29 @@ def binary_case(ctx, rep, case):
                     report(rep, "wrong-target:line-not-displayed:0" if not nums else "wrong-target:line", "the line number in the link differs from the number displayed",
                                   dict(kind="binary", row=i, url=u, text=t, line=line, shown=shown, **case))
                     return
+
+
+def apply_sed(xform, path):
+    """`--file-transformation` (sed-style `s<sep>regex<sep>replacement<sep>flags`) as the oracle understands it."""
+    if not xform:
+        return path
+    sep = xform[1]
+    rx, rep, flags = (xform[2:].split(sep) + ["", ""])[:3]
+    rep = re.sub(r"\$(\d)", r"\\\1", rep)
+    return re.sub(rx, rep, path, count=0 if "g" in flags else 1)
+
+
+def shown_names(f, xform, prefix):
+    """Base names under which the file `f` (path relative to the repository root) can appear in a link text."""
+    cands = {f}
+    if prefix:
+        cands.add(os.path.relpath(f, prefix))
+    out = set()
+    for c in cands:
+        for d in (c, apply_sed(xform, c)):
+            out.add(os.path.basename(d))
+            out.add(d)
+    return {x for x in out if x}
 
 
 def site_of(row):
@@ -516,10 +560,20 @@ def binary_cases(ctx):
         cfmt = rng.choice([None, "https://example.com/c/{commit}", "x:{commit}:y"])
         prefix = rng.choice([None, None, "sub/", ""])
         is_rg = lines[0].startswith("{")
-        if is_rg:
-            prefix = None  # rg paths are relative to the directory rg ran in, not to a repository root
-        for mode in rng.sample([m for m in BIN_MODES if not (is_rg and "--relative-paths" in m)], ctx.n(3, 5)):
-            cases.append(dict(lines=lines, files=files, fmt=fmt, cfmt=cfmt, mode=mode, prefix=prefix, invertible=inv))
+        is_grep = not is_rg and re.match(r"[^ :]+[:-]\d+[:-]", lines[0]) is not None
+        caller = None
+        if is_rg or is_grep:
+            prefix = None  # grep paths are relative to the directory grep ran in, not to a repository root
+        if is_grep:
+            caller = rng.choice(["git grep -n foo", "rg foo"])
+        # --file-transformation only rewrites what is displayed: one that shortens, one that lengthens, two that
+        # make different files look alike
+        xform = rng.choice([None, None, "s,^sub/,,", "s,^,LONG/PREFIX/,", "s,[^/]*\\.rs$,same.rs,", "s,^.*$,FILE,",
+                            "s,(\\w+)/,$1-$1/,"])
+        modes = [m for m in BIN_MODES if not ((is_rg or is_grep) and "--relative-paths" in m)]
+        for mode in rng.sample(modes, ctx.n(3, 5)):
+            cases.append(dict(lines=lines, files=files, fmt=fmt, cfmt=cfmt, mode=mode, prefix=prefix, invertible=inv,
+                              xform=xform, caller=caller))
     return cases
 
 
@@ -605,7 +659,7 @@ def run(ctx, rep):
 def replay(ctx, rep, obj):
     case = obj.get("case", {})
     if case.get("kind") == "binary":
-        c = {k: case[k] for k in ("lines", "files", "fmt", "cfmt", "mode", "prefix", "invertible") if k in case}
+        c = {k: case[k] for k in ("lines", "files", "fmt", "cfmt", "mode", "prefix", "invertible", "xform", "caller") if k in case}
         binary_case(ctx, rep, c)
     else:
         run(ctx, rep)
